@@ -134,6 +134,23 @@ def gen_matrix(rng, maxn):
     return kind, [[f() for _ in range(c)] for _ in range(r)]
 
 
+def structured_matrices(maxn):
+    """Monge-like families on which the solver needs (close to) its largest number of steps: rank-one products,
+    grade-like complements of products, squares of index sums, strictly ordered rows - square, tall and wide."""
+    out = []
+    fams = [lambda i, j, n: (i + 1) * (j + 1),
+            lambda i, j, n: float((i + 1) * (j + 1)),
+            lambda i, j, n: 1 - (n - i) * (n - j) / float(n * n),
+            lambda i, j, n: (i + j) ** 2,
+            lambda i, j, n: (n - i) * (n - j),
+            lambda i, j, n: i * n + j]
+    for n in range(2, maxn + 1):
+        for f in fams:
+            for r, c in ((n, n), (n, n - 1), (n - 1, n)):
+                out.append([[f(i, j, n) for j in range(c)] for i in range(r)])
+    return out
+
+
 def exhaustive_scopes(tier):
     out = []
     shapes = [(1, 1), (1, 2), (2, 1), (2, 2), (1, 3), (3, 1), (2, 3), (3, 2)]
@@ -195,6 +212,7 @@ def run(ctx):
               [[10**15, 1], [1, 10**15]], [[0.1 + 0.2, 0.3], [0.3, 0.1 + 0.2]],
               [[10**30, 2 * 10**30], [3 * 10**30, 5 * 10**30]], [[1e30, 2e30], [3e30, 5e30]], [[1e300, 0.0], [5e299, 1e300]]]
     mats += [('corpus', M) for M in corpus]
+    mats += [('structured', M) for M in structured_matrices(10)]
     for _ in range(n_random):
         mats.append(gen_matrix(rng, maxn))
     solver = Munkres()
